@@ -1,6 +1,7 @@
 import CashewsVerif.Lemmas.TxModes
 import CashewsVerif.Lemmas.TxNest
 import CashewsVerif.Props.C04
+import CashewsVerif.Lemmas.TxGate
 /-
 C03 — transaction effects are all-or-nothing and invisible until commit.
 Property theorems only.  Models: `Model/Tx.lean` (`TransactionBackend` / `LockTransactionBackend`),
@@ -342,6 +343,46 @@ theorem block_with_patterns_is_run_then_end (name : Nat → List Char) (b : Mem)
   simp only [Ctx.step, Ctx.init, Bool.false_eq_true, if_false]
   cases how.raises <;> simp [TxSt.begin_]
 
+/-! ### control state (`cache.disable(...)`) × transactions: `Model/TxGate.lean` -/
+
+/-- the writes among the accepted commands are the accepted commands among the writes -/
+theorem accepted_writes (h : GHist) : accepted (h.filter fun cd => cd.1.isWrite) = writesOfC (accepted h) := by
+  simp only [accepted, writesOfC, List.filter_map, List.filter_filter]
+  congr 1
+  apply List.filter_congr
+  intro x _
+  simp [Function.comp, Bool.and_comm]
+
+/-- **A commit applies exactly the writes that were accepted into the transaction — all of them, whatever is
+disabled by then.**  For every history issued under a control state that may change from command to command
+(each command of `h` tagged with whether it was disabled when it was issued: single commands, bulk commands,
+pattern commands, in any combination), in every mode: the commands that were disabled when issued never entered
+the transaction, and after commit every user key holds what running the writes of the history directly on the
+store under the same control state would have left there.  The flush of a commit (`delete_many` / `set_many` on the
+backend object) is not a command of the user: `TxSt.commit` does not consult the control state, so disabling the
+bulk commands while their single-key counterparts stay enabled drops neither the accepted deletes nor the accepted
+sets (seeded change C03-12 did). -/
+theorem commit_applies_exactly_the_accepted_writes (K : List Key) (name : Nat → List Char) (b : Mem) (h : GHist)
+    (hs : TxSetupC K name b (accepted h)) (hn : NoDeadlineCrossedC b (accepted h) = true)
+    (mode : TxMode) (id timeout : Nat) (k : Key) (hu : reserved k = false) :
+    (((TxSt.begin_ b mode id timeout).runG name h).1.commit.b.view k).map (·.val) =
+      ((b.runG name (h.filter fun cd => cd.1.isWrite)).1.view k).map (·.val) := by
+  rw [(TxSt.runG_eq name h _).1, (Mem.runG_eq name _ b).1, accepted_writes]
+  exact commit_is_in_order_application_with_patterns K name b (accepted h) hs hn mode id timeout k hu
+
+/-- **Under any control state a transaction stays invisible until commit and a rollback is the identity**; a
+command that is disabled when it is issued changes nothing at all (no buffered write, no lock key). -/
+theorem invisible_and_rollback_under_control_state (K : List Key) (name : Nat → List Char) (b : Mem) (h : GHist)
+    (hs : TxSetupC K name b (accepted h)) (mode : TxMode) (id timeout : Nat) (k : Key) :
+    (reserved k = false → ((TxSt.begin_ b mode id timeout).runG name h).1.b.view k =
+        ({ b with now := endTimeC b.now (accepted h) } : Mem).view k) ∧
+    ((TxSt.begin_ b mode id timeout).runG name h).1.rollback.b.view k =
+        ({ b with now := endTimeC b.now (accepted h) } : Mem).view k ∧
+    (∀ (st : TxSt) (c : TxCmd), st.stepG name (c, true) = (st, none)) := by
+  rw [(TxSt.runG_eq name h _).1]
+  exact ⟨invisible_until_commit_with_patterns K name b _ hs mode id timeout k,
+    rollback_is_identity_with_patterns K name b _ hs mode id timeout k, fun _ _ => rfl⟩
+
 /-! ### Non-vacuity (the sample transaction of `Props/C04.lean` meets every hypothesis used here) -/
 
 open CashewsVerif.Props.C04 in
@@ -452,5 +493,17 @@ example : ∀ mode ∈ [TxMode.fast, .locked, .serializable],
       ((TxSt.begin_ sampleStore mode 1 80).runC sampleName
         [.deleteMatch pAll, .op (.set 0 (.tok 5) none .always), .deleteMatch pAll]).1 = (none, [(4, ⟨.tok 2, some 2⟩)]) := by
   decide
+
+open CashewsVerif.Props.C04 in
+/-- control state: `delete_many` and `delete_match` disabled, `delete` / `set` / `incr` enabled (the class seeded
+change C03-12 broke).  The disabled `delete_match` never enters the transaction; the accepted delete, set and incr
+are all committed, in every mode — exactly what the same commands leave when issued directly -/
+example : ∀ mode ∈ [TxMode.fast, .locked, .serializable],
+    ((TxSt.begin_ sampleStore mode 1 80).runG sampleName
+      [(.op (.set 4 (.tok 9) none .always), false), (.deleteMatch pAll, true), (.op (.delete 0), false),
+       (.op (.incr 2 1 none), false), (.op (.deleteMany [2]), true)]).1.commit.b.store =
+    (sampleStore.runG sampleName
+      [(.op (.set 4 (.tok 9) none .always), false), (.deleteMatch pAll, true), (.op (.delete 0), false),
+       (.op (.incr 2 1 none), false), (.op (.deleteMany [2]), true)]).1.store := by decide
 
 end CashewsVerif.Props.C03
